@@ -27,6 +27,14 @@ CHECKS = {
             "arithmetic (MC_C13); TLC judges before/after state of refresh() fed each corrupted frame (Trace_C13)",
             "Exhaustive in-model enumeration of single-byte corruptions; the same enumeration replayed into the real refresh() with "
             "TLC deciding acceptance class and state/online/supported effect. Known finding D6 (dual-check collision, id->0xB0/0xB1).", "5 C13"),
+    "C14": ("TLA+ AcResponse/AcCaps: TLC checks that the decodability thresholds make every decoder operator total on every "
+            "truncation (MC_C14); TLC judges outcome and attributes of every public operation answered with malformed/mixed frames (Trace_C14)",
+            "In-model totality of the decoders under Decodable(); real operations answered with every truncation, count/size sweep, "
+            "every response id, tiny/garbage frames and mixes, with TLC deciding 'no raise' and 'decodable frames still applied'.", "5 C14"),
+    "C15": ("TLA+ AcCaps.tla: TLC checks byte-level walk = in-order merge of per-record interpretations, split invariance and flag "
+            "read-back for all lists <= 3 (MC_C15); TLC judges real CapabilitiesResponse / get_capabilities() results (Trace_C15)",
+            "Exhaustive small-list model check; real parser results for lists <= 12 compared by TLC with the merge of the records "
+            "interpreted alone, and get_capabilities() attributes compared across every split point.", "5 C15"),
 }
 
 
